@@ -97,7 +97,10 @@ def handleDT (op : String) (n : List Int) : String :=
       let t2 := goDate y2 mo2 d2 h2 mi2 s2 ns2
       let sp := t1.diff t2
       "ok " ++ showDTS sp ++ " | " ++ showDT (t2.addSpan sp)
-  | "date", _ => match mkDT n with | some t => "ok " ++ showDate t.date | none => "bad-op"
+  | "date", _ =>
+    match mkDT n with
+    | some t => (match t.checkedDate with | .ok x => "ok " ++ showDate x | .error e => showErr e)
+    | none => "bad-op"
   | _, _ => "bad-op"
 
 def fmtThenParse (d : Date) (f : List Char) : String :=
@@ -210,8 +213,10 @@ def handleArith : List String → String
     | some [y, m, d, a, b] =>
       let dt := makeDate y m d
       let sp := makeDateSpan 0 a b
-      if op == "add" then "ok " ++ showDate (dt.addDateSpan sp)
-      else if op == "sub" then "ok " ++ showDate (dt.subDateSpan sp)
+      let showR : Except Err Date → String := fun r =>
+        match r with | .ok x => "ok " ++ showDate x | .error e => showErr e
+      if op == "add" then showR (dt.addDateSpan sp)
+      else if op == "sub" then showR (dt.subDateSpan sp)
       else "bad-op"
     | _ => "bad-op"
   | [op, y1, m1, d1, y2, m2, d2] =>
@@ -221,7 +226,10 @@ def handleArith : List String → String
       let b := makeDate y2 m2 d2
       let sp := a.diffDate b
       if op == "diff" then "ok " ++ showSpan sp
-      else if op == "diffadd" then "ok " ++ showSpan sp ++ " | " ++ showDate (b.addDateSpan sp)
+      else if op == "diffadd" then
+        match b.addDateSpan sp with
+        | .ok x => "ok " ++ showSpan sp ++ " | " ++ showDate x
+        | .error e => showErr e
       else "bad-op"
     | _ => "bad-op"
   | ["unit", name, n] =>
